@@ -428,7 +428,10 @@ int xmp_set_player__(xmp_context opaque, int parm, int val)
 		ret = 0;
 		break;
 	case XMP_PLAYER_VOICES:
-		s->numvoc = val;
+		if (val >= 0) {
+			s->numvoc = val;
+			ret = 0;
+		}
 		break;
 	}
 
